@@ -338,11 +338,7 @@ impl Function {
             | Function::Md5
             | Function::CastAsText
             | Function::CastAsFloat
-            | Function::CastAsInteger
-            | Function::CastAsBoolean
             | Function::CastAsDateTime
-            | Function::CastAsDate
-            | Function::CastAsTime
             | Function::Unhex => true,
             _ => false,
         }
